@@ -174,7 +174,7 @@ func (wc *wctx) mint(s *spec, router int, id string) (material, string) {
 
 	// the registration under test replaces the minting registration (same id, same tokens and codes)
 	tr := &vclient.Client{
-		ID: id, Secret: s.Secret, Redirects: []string{redirectURI}, AppType: s.App, Auth: authMethods[s.Auth],
+		ID: id, Secret: s.Secret, Redirects: []string{redirectURI}, AppType: s.App, Auth: registeredAuth(s),
 		RespTypes: []oidc.ResponseType{oidc.ResponseTypeCode}, Grants: s.Grants, TokenType: mr.TokenType,
 		IDTokenTTL: time.Hour, LoginPrefix: vclient.LoginBase, ServiceUser: true,
 	}
@@ -237,6 +237,12 @@ func assertion(s *spec, w *opdrv.World, iss string, kind assertionKind) (string,
 		valid = false
 	case akWrongAud:
 		aud = []string{"https://not-the-op.example"}
+		switch s.WrongVar % 4 {
+		case 2:
+			aud = []string{issuerFor(s, w) + ".attacker.example/"} // the issuer is a mere prefix of it
+		case 3:
+			aud = []string{issuerFor(s, w) + ":8443/oauth/token"}
+		}
 		if s.Dyn && s.WrongVar%2 == 1 {
 			// the issuer this very provider has under its OTHER host name: not the issuer of this request
 			aud = []string{otherIssuerFor(s, w)}
@@ -601,6 +607,17 @@ func place(s *spec, rq *request, p *proof, ownParams []string) {
 	} else {
 		rq.Query = nil
 	}
+}
+
+// registeredAuth is the auth method the registration names.
+func registeredAuth(s *spec) oidc.AuthMethod {
+	switch s.OddAuth {
+	case "unset":
+		return oidc.AuthMethod("")
+	case "client_secret_jwt":
+		return oidc.AuthMethod("client_secret_jwt")
+	}
+	return authMethods[s.Auth]
 }
 
 const altHost = "alt.verif.test"
